@@ -184,10 +184,50 @@ def _dominating_facts(fn, site_bb):
     return facts
 
 
+FACTS = None     # set by review(): lets discharge() look into closures
+
+
+def _returns_first_field_of_param(g):
+    """closure body is `|(offset, _)| offset`: the result is field 0 of its (only) argument"""
+    e = cfg.expr_local(g, 0, 6)
+    return e[0] == "place" and e[1] == ("param", 2) and [x for x in e[2] if x != "deref"] == [("field", "0")]
+
+
+def char_boundary_offset(fn, e, recv):
+    """e is, by construction, a character boundary of the string `recv` that is <= its length: the position reported by char_indices for
+    a character that was found, or the length of the string when none was"""
+    def same(a, b):
+        return cfg.expr_str(cfg.strip_reborrow(a)) == cfg.expr_str(cfg.strip_reborrow(b))
+
+    def found_position(x):
+        # Iterator::find / position over recv.char_indices()
+        if x[0] == "call" and x[1] and x[1].endswith(("Iterator::find", "::find")) and x[2]:
+            it = cfg.strip_reborrow(x[2][0])
+            if it[0] == "ref":
+                it = it[1]
+            return it[0] == "call" and it[1] == "str::char_indices" and same(it[2][0], recv)
+        return False
+    if e[0] == "call" and e[1] == "str::len" and same(e[2][0], recv):
+        return True
+    if e[0] == "call" and e[1] in ("std::option::Option::map_or", "std::option::Option::map_or_else") and len(e[2]) == 3:
+        x, dflt, clo = e[2]
+        if found_position(x) and clo[0] == "closure" and FACTS is not None and clo[1] in FACTS.fns and _returns_first_field_of_param(FACTS.fns[clo[1]]):
+            if e[1].endswith("map_or"):
+                return char_boundary_offset(fn, dflt, recv)
+            return dflt[0] == "closure" and clo[1] in FACTS.fns and cfg.expr_local(FACTS.fns[dflt[1]], 0, 6)[0] == "call" \
+                and cfg.expr_local(FACTS.fns[dflt[1]], 0, 6)[1] == "str::len"
+    return False
+
+
 def discharge(fn, s):
     """returns a reason string when the panic site is mechanically discharged, else None"""
     t = s["term"]
     k = s["kind"]
+    if k == "string-index" and t.get("k") == "call" and (t["f"].get("fn") or {}).get("key") == "str::split_at":
+        recv = cfg.expr_operand(fn, t["args"][0], 10)
+        off = cfg.expr_operand(fn, t["args"][1], 14)
+        if char_boundary_offset(fn, off, recv):
+            return "split_at an offset reported by char_indices of the same string (or its length)"
     if k in ("assert:DivisionByZero", "assert:RemainderByZero"):
         e = cfg.expr_operand(fn, t["cond"], 4)
         if e[0] == "bin" and e[1] == "Eq" and e[2][0] == "const" and e[3] == ("const", 0) and e[2][1] not in (0, None):
@@ -230,6 +270,8 @@ def discharge(fn, s):
 
 
 def review(rep, rule, F, fn_keys, table, shortf):
+    global FACTS
+    FACTS = F
     """count the residual (not mechanically discharged) panic sites per (function, kind) and compare with the reviewed maxima.
     table: dict (fn_key, kind) -> {"max": n, "reason": str}"""
     total = 0
